@@ -2478,7 +2478,9 @@ class Parameters:
                 async for new_obj in awaitable:
                     if superseded():
                         break
-                    with _syncing(self_.self, (pname,)):
+                    # (a linked constant is unlocked for the delivery only,
+                    # as in _sync_refs - not while the next item is awaited)
+                    with edit_constant(self_.self, _names=(pname,)), _syncing(self_.self, (pname,)):
                         self_.update({pname: new_obj})
             else:
                 try:
@@ -2486,7 +2488,7 @@ class Parameters:
                 except Skip:
                     return
                 if not superseded():
-                    with _syncing(self_.self, (pname,)):
+                    with edit_constant(self_.self, _names=(pname,)), _syncing(self_.self, (pname,)):
                         self_.update({pname: new_obj})
         finally:
             # Ensure we clean up but only if the task matches the currrent task
